@@ -24,6 +24,10 @@
 #include <unistd.h>
 #include <signal.h>
 #include <sys/time.h>
+#ifdef VH_VALGRIND
+#include <valgrind/valgrind.h>
+#include <valgrind/memcheck.h>
+#endif
 #include <math.h>
 #include <errno.h>
 #include <fcntl.h>
@@ -72,6 +76,9 @@ static FILE		*vh_out = NULL ;
 static long		vh_cases_run = 0 ;
 static int		vh_nsamples = 0 ;
 static int		vh_case_secs = 60 ;		/* wall watchdog per case */
+static int		vh_stride = 1 ;			/* --stride K: run every K-th case of this shard only (memcheck runs) */
+static long		vh_vg_errors = 0 ;
+static int		vh_slow = 1 ;			/* watchdog multiplier: 40 under valgrind */
 static int		vh_case_cpu_secs = 0 ;	/* > 0: CPU-time watchdog per case (ITIMER_VIRTUAL): load-independent, so it needs no confirmation run */
 static long		vh_viol_count = 0 ;
 
@@ -220,6 +227,7 @@ static void vh_init (int argc, char **argv, const char *mon, const char *prop)
 		else if (!strcmp (argv [i], "--seed") && i + 1 < argc) vh_seed0 = strtoull (argv [++i], NULL, 0) ;
 		else if (!strcmp (argv [i], "--from") && i + 1 < argc) vh_from = atol (argv [++i]) ;
 		else if (!strcmp (argv [i], "--only") && i + 1 < argc) vh_only = atol (argv [++i]) ;
+		else if (!strcmp (argv [i], "--stride") && i + 1 < argc) vh_stride = atoi (argv [++i]) ;
 		else if (!strcmp (argv [i], "--verbose")) vh_verbose = 1 ;
 		}
 	vh_out = outp ? fopen (outp, "a") : stdout ;
@@ -236,27 +244,45 @@ static void vh_init (int argc, char **argv, const char *mon, const char *prop)
 	if (__sanitizer_set_death_callback) __sanitizer_set_death_callback (vh_death) ;
 	else { signal (SIGSEGV, vh_sigdeath) ; signal (SIGFPE, vh_sigdeath) ; signal (SIGBUS, vh_sigdeath) ; signal (SIGABRT, vh_sigdeath) ; signal (SIGILL, vh_sigdeath) ; }
 	signal (SIGALRM, vh_alarm) ; signal (SIGVTALRM, vh_cpu_alarm) ;
+#ifdef VH_VALGRIND
+	if (RUNNING_ON_VALGRIND) vh_slow = 40 ;
+#endif
 	signal (SIGPIPE, SIG_IGN) ;
 	if (vh_only >= 0) vh_verbose = 1 ;
 }
 
+/* under valgrind: when the error count grew during the case that just ended, print a marker into valgrind's log so that the
+** driver can attribute the error blocks above it to that case */
+static void vh_vg_poll (void)
+{
+#ifdef VH_VALGRIND
+	if (RUNNING_ON_VALGRIND)
+	{	long n = (long) VALGRIND_COUNT_ERRORS ;
+		if (n > vh_vg_errors && vh_case_idx >= 0) { VALGRIND_PRINTF ("VH-CASE %ld %s\n", vh_case_idx, vh_case_desc) ; }
+		vh_vg_errors = n ;
+		}
+#endif
+}
 /* Case enumeration: call vh_case() for every case in a fixed order; returns 1 when this
 ** process must run it.  The PRNG is re-seeded from (seed, monitor, index) so a case replays alone. */
 static int vh_case (const char *fmt, ...)
 {	long idx = vh_next_idx++ ; va_list ap ;
 	if (vh_only >= 0) { if (idx != vh_only) return 0 ; }
 	else if (idx < vh_from || (idx % vh_nshards) != vh_shard) return 0 ;
+	else if (vh_stride > 1 && ((idx / vh_nshards) % vh_stride) != 0) return 0 ;
+	vh_vg_poll () ;
 	vh_case_idx = idx ;
 	va_start (ap, fmt) ; vsnprintf (vh_case_desc, sizeof (vh_case_desc), fmt, ap) ; va_end (ap) ;
 	vh_srand (vh_seed0 * 0x100000001b3ULL + vh_fnv (0, vh_mon, strlen (vh_mon)) + (uint64_t) idx * 0x9e3779b97f4a7c15ULL) ;
 	vh_cases_run++ ;
-	alarm (vh_case_secs) ;
-	if (vh_case_cpu_secs > 0) { struct itimerval itv ; memset (&itv, 0, sizeof (itv)) ; itv.it_value.tv_sec = vh_case_cpu_secs ; setitimer (ITIMER_VIRTUAL, &itv, NULL) ; }
+	alarm (vh_case_secs * vh_slow) ;
+	if (vh_case_cpu_secs > 0) { struct itimerval itv ; memset (&itv, 0, sizeof (itv)) ; itv.it_value.tv_sec = vh_case_cpu_secs * vh_slow ; setitimer (ITIMER_VIRTUAL, &itv, NULL) ; }
 	if (vh_verbose) fprintf (stderr, "case %ld: %s\n", idx, vh_case_desc) ;
 	return 1 ;
 }
 static int vh_finish (void)
 {	alarm (0) ;
+	vh_vg_poll () ;
 	vh_case_idx = -1 ;
 	vh_flush_stats () ;
 	fprintf (vh_out, "{\"t\":\"done\",\"enumerated\":%ld}\n", vh_next_idx) ;
